@@ -490,9 +490,17 @@ func (s *Sim) deliver(bcast bool, p, src, land int) bool {
 	what := "HandlePrivateMsg"
 	if bcast {
 		what = "HandleBroadcastMsg"
-		s.guard(what, func() { err = s.node[p].HandleBroadcastMsg(src, e.data) })
+		buf := append([]byte(nil), e.data...) // the receiver's own buffer, reused (overwritten) by the caller after the call
+		s.guard(what, func() { err = s.node[p].HandleBroadcastMsg(src, buf) })
+		for i := range buf {
+			buf[i] = 0xEE
+		}
 	} else {
-		s.guard(what, func() { err = s.node[p].HandlePrivateMsg(src, e.data) })
+		buf := append([]byte(nil), e.data...)
+		s.guard(what, func() { err = s.node[p].HandlePrivateMsg(src, buf) })
+		for i := range buf {
+			buf[i] = 0xEE
+		}
 	}
 	if err != nil {
 		s.res.Violations = append(s.res.Violations, Violation{"C10", "HandlerAcceptsWhileRunning",
